@@ -249,6 +249,44 @@ def direct_compose(a):
     return None
 
 
+def direct_abs_imported(a):
+    """An absolute path is refused on every non-master key, whatever route built it and whatever its
+    parent-fingerprint / index metadata say (raw keys and extended keys with arbitrary metadata)."""
+    ci, seed, depth, fp, idx, pub = a
+    from bip_utils import Bip32KeyData, Bip32Depth, Bip32KeyIndex, Bip32FingerPrint, Bip32ChainCode
+    cls = CLASSES[ci]
+    m = cls.FromSeed(seed)
+    kd = Bip32KeyData(depth=Bip32Depth(depth), index=Bip32KeyIndex(idx), chain_code=m.ChainCode(),
+                      parent_fprint=Bip32FingerPrint(fp))
+    objs = []
+    if pub:
+        objs.append(("FromPublicKey", cls.FromPublicKey(m.PublicKey().KeyObject(), kd)))
+    else:
+        objs.append(("FromPrivateKey", cls.FromPrivateKey(m.PrivateKey().KeyObject(), kd)))
+    k0 = objs[0][1]
+    ext = k0.PublicKey().ToExtended() if pub else k0.PrivateKey().ToExtended()
+    try:
+        objs.append(("FromExtendedKey", cls.FromExtendedKey(ext)))
+    except Exception:  # noqa  (depth-0 sanity checks may refuse the metadata: not this check's concern)
+        pass
+    hard = (ci == 2) or not pub
+    rel = Bip32Path([HARD + 1 if hard else 1], False)
+    for how, k in objs:
+        for ab in (Bip32Path([HARD + 1 if hard else 1], True), "m/1'" if hard else "m/1", "m"):
+            try:
+                k.DerivePath(ab)
+                if k.Depth().ToInt() > 0:
+                    return "%s key of depth %d (fingerprint %s): absolute path %r accepted" % (how, depth, fp.hex(), str(ab))
+            except ValueError:
+                if k.Depth().ToInt() == 0:
+                    return "%s master key refuses an absolute path" % how
+        try:
+            k.DerivePath(rel)
+        except Exception as e:  # noqa
+            return "%s key of depth %d: relative path refused with %s" % (how, depth, type(e).__name__)
+    return None
+
+
 def direct_spelling(a):
     """all spellings of one path derive the same key"""
     ci, seed, spellings = a
@@ -279,6 +317,7 @@ FUNCS = {
     "bip32_index_from_bytes": Func(model=lambda m, a: m.call("bip32_index_from_bytes", a[0]),
                                    impl=lambda a: Bip32KeyIndex.FromBytes(a[0]).ToInt()),
     "bip32_derive_trace": Func(model=lambda m, a: m.call("bip32_derive_trace", a[0], int(a[1]), a[2]), impl=impl_trace),
+    "abs_on_imported": Func(direct=direct_abs_imported),
     "derive_compose": Func(direct=direct_compose),
     "derive_spelling": Func(direct=direct_spelling),
 }
@@ -473,6 +512,15 @@ def generate(ctx):
             for pub in (False, True):
                 ctx.run("bip32_derive_trace", [d, pub, s], "walk-directed")
 
+    # ---- absolute path on imported non-master keys with arbitrary metadata
+    for ci in range(4):
+        for depth in (0, 1, 2, 5, 255):
+            for fp in (bytes(4), b"\x12\x34\x56\x78"):
+                for idx in (0, 1, HARD):
+                    for pub in ((False,) if ci == 2 else (False, True)):
+                        if depth == 0 and (fp != bytes(4) or idx != 0):
+                            continue
+                        ctx.run("abs_on_imported", [ci, bytes(range(ci, ci + 32)), depth, fp, idx, pub], "imported")
     # ---- compositionality, parent unchanged, absolute-on-child, spelling independence: direct checks
     n_tr = ctx.n(60, 1500)
     for t in range(n_tr):
